@@ -6,6 +6,7 @@ import (
 	"io"
 	"strconv"
 	"strings"
+	"unicode/utf8"
 )
 
 // строчка в tl
@@ -171,7 +172,7 @@ func parseDefinition(cur *Cursor) (def definition, err error) {
 			return def, errExcluded{typSpace}
 		}
 
-		cur.Unread(len(typSpace))
+		cur.Unread(utf8.RuneCountInString(typSpace)) // the cursor counts runes, not bytes
 	}
 
 	// ipPort#d433ad73 ipv4:int port:int = IpPort;
